@@ -116,6 +116,10 @@ class _STIXBase(collections.abc.Mapping):
         # property its value could be anything.
         if 'granular_markings' in self._properties:
             for m in self.get('granular_markings', []):
+                if not isinstance(m, collections.abc.Mapping):
+                    # (a custom type's own property of that name, of another
+                    # shape: no selectors to check)
+                    continue
                 try:
                     validate(self, m.get('selectors'))
                 except RecursionError:
